@@ -8,5 +8,6 @@ INVARIANT I_NeverStale
 INVARIANT I_BoundsRespected
 INVARIANT I_NoDnssecLeak
 INVARIANT I_NoPanic
+INVARIANT I_ViewIsWire
 POSTCONDITION Accepted
 CHECK_DEADLOCK FALSE
